@@ -333,7 +333,6 @@ func interpretAsInUnion(v core.Val) bool {
 	return false
 }
 
-
 // c15Nested: a walk started from the Progress handed to a visit function (the nesting the WalkMatching documentation
 // invites) is a walk of its own: under visit-links-once the outer walk visits what it visits without the nested one,
 // and the nested walk visits what the same walk visits when started afresh at that node and path.
